@@ -21,7 +21,7 @@ LEVEL_TEXT = ("Proof + correspondence (PARTIAL for the script-splitting stage): 
               "kernFeatureWriter is not transcribed into Coq: its effect is only checked through spec_C05 on generated fonts. "
               "kernFeatureWriter2 is checked through the same predicate and against writer 1 on single-direction fonts.")
 LEVEL_NOTE = ("Trusted: Coq kernel, hand models, harness, our GPOS interpreter (harness/otl.py, written from the OpenType spec; no "
-              "HarfBuzz available), glyph->script / bidi classification taken from the real classifyGlyphs, feaLib/otlLib "
+              "HarfBuzz available), glyph->script classification taken from the real classifyGlyphs (whose bidi instance is compared with the Gallina classify of Mark/Direction.v on random substitution graphs), feaLib/otlLib "
               "compilation. Known finding F10 (rule mixing R and L bidi glyphs is dropped whole) is recognised by signature.")
 TECHNIQUE = "Coq model of UFO kerning + lookup semantics with precedence theorem; Coq-evaluated spec on an independent GPOS interpreter's reading of compiled fonts"
 IMPORTS = "From U2F Require Import Base.Prelude Geometry.Model Kern.Model Kern.Spec."
@@ -304,6 +304,12 @@ def merge_scripts_section(ctx):
 
 def explore(ctx):
     merge_scripts_section(ctx)
+    # the bidi classification of glyphs (cmap + GSUB closure with the neutral glyphs taken out + designspace-rule
+    # substitutes) is util.classifyGlyphs with the writer's bidi type: the same Gallina model as C18's, other property
+    from harness.props.c18 import classify_model_section
+    from ufo2ft.featureWriters.kernFeatureWriter import unicodeBidiType
+    classify_model_section(ctx, func=unicodeBidiType, keys=(("L", "L"), ("R", "R")), tag="bidi classify",
+                           chars={"L": [0x61, 0x62, 0x63, 0x31], "R": [0x627, 0x628, 0x5D0], "N": [0x2E, 0x2C, 0x2B]})
     from ufo2ft.featureWriters.kernFeatureWriter import KernFeatureWriter
     from ufo2ft.featureWriters.kernFeatureWriter2 import KernFeatureWriter as KernFeatureWriter2
     rng = ctx.subrng("kern")
